@@ -57,6 +57,7 @@ class Transition:
     def harness(self, chk, prog):
         T = self
         T.thorough = chk.thorough
+        T.prop = chk.prop
         if chk.thorough and getattr(T, 'sizes_thorough', None):
             T.sizes = T.sizes_thorough
 
